@@ -596,7 +596,8 @@ def get(self, name, select=K_select, extract=K_extract, **kwargs):
     if not extract:
         split_data = [sd for sd in split_data if sd is not None]
         return ConcatenatedSensorGetter(split_data)
-    props = self._get_props(name, self.props, **kwargs)
+    with self._lock:
+        props = self._get_props(name, self.props, **kwargs)
     if any(sd is None for sd in split_data):
         if select:
             split_data2 = self._get(name, select=False, extract=True, **kwargs)
